@@ -157,7 +157,7 @@ class _OutOfPrefix(BaseException):
         self.lo, self.hi = lo, hi
 
 
-def stack_guided_genomes(g, max_states: int = 120, max_len: int = 14, failures_limit: int = 100, want: int = 60):
+def stack_guided_genomes(g, max_states: int = 300, max_len: int = 14, failures_limit: int = 100, want: int = 60):
     """Explicit-state search over the stack machine of the stack-based representation: breadth-first over draw
     prefixes of the real `create_tree_using_stacks`, states = contents of the type stacks (read from the frame in
     which the run stopped) plus whether a failure has happened; every prefix after which the start symbol's stack
@@ -188,6 +188,8 @@ def stack_guided_genomes(g, max_states: int = 120, max_len: int = 14, failures_l
             return [i * 100000 for i in range(n // 100000)]
         if n <= 12:
             return list(range(n))
+        if lo < 0 < hi:  # a pushed base value: the small values the refinement alphabets of the families accept
+            return [-lo + x for x in (0, 1, 2, 3) if lo + (-lo + x) <= hi]
         return [0, 1, n - 1]
 
     def canon(stacks, failures):
@@ -279,7 +281,9 @@ def _map(ctx: Ctx) -> Iterator[Event]:
     lists = gene_lists(L, alphabet)
     if rep_kind == "stack":
         # plus the genomes found by explicit-state search of the stack machine (they complete a program)
-        lists = itertools.chain(lists, (tuple(gn) for gn, _ in stack_guided_genomes(ctx.g)))
+        # (grammars declared with string annotations reach the refinement search of the stack machine: search deeper)
+        lists = itertools.chain(lists, (tuple(gn) for gn, _ in stack_guided_genomes(ctx.g, max_states=800 if ctx.spec.get("stringify") else 300,
+                                                                                   want=120 if ctx.spec.get("stringify") else 60)))
     for dna in lists:
         dna = list(dna)
         if rep_kind == "ge":
@@ -411,7 +415,7 @@ def standard_units(tier: str, family=None, deciders=("maxdepth", "full", "pigrow
             us.append({"kind": "tree-create", "spec": spec, "decider": "pt", "depth_off": 0, "horizon": 40,
                        "max_execs": 400 if tier == "quick" else 5000})
     small = [s for s in fam if s["name"].split(":")[0] in
-             ("S1", "S2", "S3", "S5", "S6", "S7", "S8", "S9", "S10", "S11", "S12", "S13", "S14", "S15", "S16", "S17", "S18", "S19", "S20", "S21", "S22", "S23", "S24", "S26")]
+             ("S1", "S2", "S3", "S5", "S6", "S7", "S8", "S9", "S10", "S11", "S12", "S13", "S14", "S15", "S16", "S17", "S18", "S19", "S20", "S21", "S22", "S23", "S24", "S26", "S27", "S28", "S29", "S30", "S31", "S32")]
     small += [s for s in fam if s["name"].startswith(("F1:", "G1:")) and s["name"].count(",") == 0]
     if tier != "quick":
         # thorough: the two-abstract and nested families as well (the two-field F1/G2 grammars stay with tree creation)
